@@ -15,7 +15,7 @@ from common import err_code
 
 PROP = 11
 FN_NAME = {1: "HMMResult", 2: "NRPSPKSDomains", 3: "TTAResults", 4: "HmmerResults", 5: "HMMDetectionResults",
-           6: "SideloadedResults", 7: "RuleDetectionResults"}
+           6: "SideloadedResults", 7: "RuleDetectionResults", 9: "main.run_module"}
 
 
 # ---------------------------------------------------------------- flat JSON encoding
@@ -993,6 +993,624 @@ def hash_seed_run(chk, seed, count, hash_seeds):
     chk.count("hash_seed_cases", count * len(hash_seeds))
 
 
+# ---------------------------------------------------------------- fn 9: main.run_module / analyse_record / run_detection
+# (model: coq/C11/ModelMain.v).  Small fake modules with the module interface, and real ones (tta,
+# hmm_detection's regenerate path) behind a recording proxy, drive the real main.run_module /
+# main.analyse_record / main.run_detection over the decision table  saved entry x regenerate outcome x
+# enabled x is_enabled x run outcome; afterwards the real serialiser.dump_records writes the final map.
+
+EXC = {1: ValueError, 9: RuntimeError, 4: KeyError, 5: TypeError, 2: AssertionError}
+MAIN_KNOWN_CLASS = "falsy_results_dropped"
+
+
+class Registry:
+    """ model identities of the objects that travel through module_results """
+    def __init__(self):
+        self.ids = {}
+        self.keep = []
+
+    def add(self, obj, ident):
+        self.ids[id(obj)] = ident
+        self.keep.append(obj)
+        return obj
+
+    def ident(self, obj):
+        return self.ids.get(id(obj), -7)
+
+
+def fake_results_class():
+    from antismash.common.module_results import DetectionResults
+
+    class FakeResults(DetectionResults):
+        """ a results object of a fake module; its truth value is part of the case """
+        def __init__(self, ident, truthy, owner, log):
+            super().__init__("rec")
+            self.ident, self.truthy, self.owner, self.log = ident, truthy, owner, log
+
+        def __bool__(self):
+            return self.truthy
+
+        def to_json(self):
+            return {"fake results": self.ident}
+
+        def add_to_record(self, record):
+            self.log.extend([4, self.owner, self.ident])
+
+        def get_predicted_protoclusters(self):
+            self.log.extend([4, self.owner, self.ident])
+            return []
+    return FakeResults
+
+
+_FAKE_RESULTS = []
+
+
+def FakeResults(*args):
+    if not _FAKE_RESULTS:
+        _FAKE_RESULTS.append(fake_results_class())
+    return _FAKE_RESULTS[0](*args)
+
+
+def junk_value(ident, truthy):
+    return ["not results", ident] if truthy else []
+
+
+class FakeModule:
+    """ an object with the module interface whose functions do what the case says """
+    def __init__(self, beh, reg, log):
+        (self.name, self.rk, self.ri, self.rt, self.in_all, self.enabled, self.uk, self.ui, self.ut) = beh
+        self.__name__ = mod_name(self.name)
+        self.reg, self.log = reg, log
+
+    def check_options(self, _options):
+        return []
+
+    def is_enabled(self, _options):
+        return bool(self.enabled)
+
+    def regenerate_previous_results(self, previous, _record, _options):
+        self.log.extend([1, self.name, self.reg.ident(previous)])
+        if self.rk == 0:
+            return None
+        if self.rk == 1:
+            return self.reg.add(FakeResults(self.ri, bool(self.rt), self.name, self.log), self.ri)
+        if self.rk == 2:
+            return self.reg.add(junk_value(self.ri, bool(self.rt)), self.ri)
+        raise EXC[self.rt]("regenerate_previous_results of the fake module raises")
+
+    def run_on_record(self, _record, results, _options):
+        self.log.extend([2, self.name, -1 if results is None else self.reg.ident(results)])
+        if self.uk == 1 and results is not None:
+            return results
+        if self.uk in (0, 1):
+            return self.reg.add(FakeResults(self.ui, bool(self.ut), self.name, self.log), self.ui)
+        if self.uk == 2:
+            return None if self.ut else {"not": "results"}
+        raise EXC[self.ut]("run_on_record of the fake module raises")
+
+
+def mod_name(n):
+    return {100: "antismash.modules.tta", 101: "antismash.detection.hmm_detection"}.get(n, f"verif.fake.module{n}")
+
+
+def mod_number(name):
+    return {"antismash.modules.tta": 100, "antismash.detection.hmm_detection": 101}.get(name) or int(name.rsplit("module", 1)[1])
+
+
+class StubRecord:
+    """ what run_detection needs of a record besides handing it to the modules: there is always a region """
+    id = "rec"
+    skip = False
+
+    def add_protocluster(self, _p):
+        pass
+
+    def add_subregion(self, _s):
+        pass
+
+    def get_protoclusters(self):
+        return []
+
+    def get_subregions(self):
+        return []
+
+    def create_candidate_clusters(self):
+        pass
+
+    def create_regions(self):
+        pass
+
+    def get_regions(self):
+        return [1]
+
+
+_DUMP_RECORD = []
+
+
+def dump_record():
+    if not _DUMP_RECORD:
+        from antismash.common.secmet.test.helpers import DummyCDS, DummyRecord
+        _DUMP_RECORD.append(DummyRecord(seq="ATGC" * 500, features=[DummyCDS(100, 400, locus_tag="cdsA")], record_id="rec"))
+    return _DUMP_RECORD[0]
+
+
+def build_map(entries, reg, log):
+    """ entries: [(name, kind, id, truthy)] -> the dict module_results """
+    out = {}
+    for name, kind, ident, truthy in entries:
+        if kind == 0:
+            value = reg.add({"saved by": name, "id": ident} if truthy else {}, ident)
+        elif kind == 1:
+            value = reg.add(FakeResults(ident, bool(truthy), name, log), ident)
+        elif kind == 2:
+            value = reg.add(junk_value(ident, truthy), ident)
+        else:
+            value = None
+        out[mod_name(name)] = value
+    return out
+
+
+def encode_map(module_results, reg):
+    from antismash.common.module_results import ModuleResults
+    out = [len(module_results)]
+    for key, value in module_results.items():
+        if value is None:
+            out += [mod_number(key), 3, 0, 0]
+        elif isinstance(value, ModuleResults):
+            out += [mod_number(key), 1, reg.ident(value), int(bool(value))]
+        elif isinstance(value, dict):
+            out += [mod_number(key), 0, reg.ident(value), int(bool(value))]
+        else:
+            out += [mod_number(key), 2, reg.ident(value), int(bool(value))]
+    return out
+
+
+def with_timings(log, timings):
+    """ [3; name] after the run_on_record call of every module whose timing was recorded """
+    out = []
+    i = 0
+    timed = {mod_number(k) for k in timings}
+    while i < len(log):
+        width = 3
+        out += log[i:i + width]
+        if log[i] == 2 and log[i + 1] in timed:
+            out += [3, log[i + 1]]
+        i += width
+    return out
+
+
+def finish_main_case(chk, module_results, reg, log, timings, describe):
+    """ the later stage: the final map is written out by the real dump_records """
+    from antismash.common import serialiser
+    from antismash.common.module_results import ModuleResults
+    try:
+        written = serialiser.dump_records([module_results], [dump_record()])[0]["modules"]
+        dumped = 1
+        expected = {k: v.to_json() for k, v in module_results.items() if isinstance(v, ModuleResults)}
+        if list(written.items()) != list(expected.items()):
+            chk.violation("counterexample", "dump_records does not write the results in hand, in their order",
+                          {"input": describe, "written": list(written), "in hand": list(expected),
+                           "theorem_or_correspondence": "main.run_module bookkeeping"})
+    except TypeError:
+        dumped = 0
+    return [0, dumped] + encode_map(module_results, reg) + with_timings(log, timings)
+
+
+def impl_main(chk, mode, entries, behs, stages=None):
+    """ the real analyse_record (mode 0) / run_detection (mode 1) over fake modules """
+    from antismash import main as amain
+    from antismash.detection import DetectionStage
+    reg, log = Registry(), []
+    module_results = build_map(entries, reg, log)
+    modules = [FakeModule(beh, reg, log) for beh in behs]
+    options = types.SimpleNamespace(all_enabled_modules=[m for m in modules if m.in_all])
+    describe = {"mode": mode, "module_results": entries, "modules": behs}
+
+    def work():
+        if mode == 0:
+            timings = amain.analyse_record(StubRecord(), options, modules, module_results)
+        else:
+            cuts = stages or [len(modules) // 3, 2 * len(modules) // 3]
+            old = amain._DETECTION_MODULES  # pylint: disable=protected-access
+            amain._DETECTION_MODULES = {DetectionStage.FULL_GENOME: modules[:cuts[0]],
+                                        DetectionStage.AREA_FORMATION: modules[cuts[0]:cuts[1]],
+                                        DetectionStage.AREA_REFINEMENT: [],
+                                        DetectionStage.PER_AREA: modules[cuts[1]:]}
+            try:
+                timings = amain.run_detection(StubRecord(), options, module_results)
+            finally:
+                amain._DETECTION_MODULES = old
+        return finish_main_case(chk, module_results, reg, log, timings, describe)
+    return guarded(work)
+
+
+def unflat_main(flat):
+    """ the decoded input of a fn 9 case, for replay files """
+    body = flat[2:]
+    n = body[1]
+    entries = [body[2 + 4 * i:6 + 4 * i] for i in range(n)]
+    pos = 2 + 4 * n
+    behs = [body[pos + 1 + 9 * i:pos + 10 + 9 * i] for i in range(body[pos])]
+    return {"function": "main.analyse_record" if body[0] == 0 else "main.run_detection",
+            "module_results (name, kind 0 raw 1 results 2 other 3 None, id, truthy)": entries,
+            "modules (name, regenerate kind/id/flag, in all_enabled_modules, is_enabled, run_on_record kind/id/flag)": behs,
+            "kinds": "regenerate 0 None 1 results 2 other object 3 raises(flag = exception); run_on_record 0 new 1 reuses given 2 not results 3 raises"}
+
+
+def flat_main(mode, entries, behs):
+    flat = [PROP, 9, mode, len(entries)]
+    for entry in entries:
+        flat += [int(x) for x in entry]
+    flat.append(len(behs))
+    for beh in behs:
+        flat += [int(x) for x in beh]
+    return flat
+
+
+REGEN_TABLE = [(0, 0, 0), (1, 50, 1), (1, 50, 0), (2, 51, 1), (2, 51, 0), (3, 0, 1), (3, 0, 9)]
+RUN_TABLE = [(0, 60, 1), (0, 60, 0), (1, 61, 1), (1, 61, 0), (2, 0, 0), (2, 0, 1), (3, 0, 1), (3, 0, 4)]
+PREV_TABLE = [None, (0, 40, 1), (0, 40, 0), (3, 0, 0), (1, 41, 1), (2, 42, 1), (2, 42, 0)]
+
+
+def main_table(rng):
+    """ the whole decision table of one run_module step, in both settings, with bystander entries of
+        other modules before / after (kept in place; a raw one of a module that is not visited makes
+        the dump fail, by design) """
+    for prev in PREV_TABLE:
+        picked = rng.choice(REGEN_TABLE)
+        for regen in REGEN_TABLE:
+            if (prev is None or prev[0] != 0) and regen != picked:
+                continue       # regenerate is not called: one regenerate behaviour is enough
+            for in_all in (0, 1):
+                for enabled in (0, 1):
+                    for run in RUN_TABLE:
+                        if not (in_all and enabled) and run != RUN_TABLE[rng.randrange(len(RUN_TABLE))] \
+                                and rng.random() < 0.7:
+                            continue
+                        for mode in (0, 1):
+                            entries = []
+                            r = rng.random()
+                            if r < 0.35:
+                                entries.append((2, 1, 70, rng.choice([0, 1])))
+                            elif r < 0.45:
+                                entries.append((2, 0, 71, 1))
+                            if prev is not None:
+                                entries.append((1,) + prev)
+                            if rng.random() < 0.3:
+                                entries.append((3, rng.choice([1, 1, 3]), 72, 1))
+                            beh = (1,) + regen + (in_all, enabled) + run
+                            yield mode, entries, [beh], "table"
+
+
+def gen_main_sequence(rng):
+    """ several modules in a row over a map with saved results for some of them """
+    pool = [1, 2, 3, 4, 5, 6]
+    names = rng.sample(pool, rng.randint(2, 5))
+    if rng.random() < 0.1:
+        names.append(rng.choice(names))         # a module visited twice
+    entries = []
+    for name in rng.sample(pool, rng.randint(0, 5)):
+        r = rng.random()
+        if r < 0.8 or name not in names:
+            kind, truthy = (0, int(rng.random() < 0.85)) if r < 0.93 else (rng.choice([1, 3]), 1)
+        else:
+            kind, truthy = rng.choice([1, 2, 3]), int(rng.random() < 0.7)
+        entries.append((name, kind, 40 + name, truthy if kind != 3 else 0))
+    wild = rng.random() < 0.3       # modules that break the interface or raise
+    behs = []
+    for pos, name in enumerate(names):
+        r = rng.random()
+        if r < 0.35:
+            regen = (0, 0, 0)
+        elif r < 0.8 or not wild:
+            regen = (1, 50 + pos, int(rng.random() < 0.8))
+        elif r < 0.9:
+            regen = (2, 50 + pos, int(rng.random() < 0.7))
+        else:
+            regen = (3, 0, rng.choice([1, 9]))
+        r = rng.random()
+        if r < 0.45:
+            run = (0, 60 + pos, int(rng.random() < 0.85))
+        elif r < 0.9 or not wild:
+            run = (1, 60 + pos, int(rng.random() < 0.85))
+        elif r < 0.95:
+            run = (2, 0, rng.choice([0, 1]))
+        else:
+            run = (3, 0, rng.choice([1, 4]))
+        behs.append((name,) + regen + (int(rng.random() < 0.6), int(rng.random() < 0.75)) + run)
+    return rng.choice([0, 1]), entries, behs, "wild_sequence" if wild else "sequence"
+
+
+class Proxy:
+    """ a real module behind a recorder: the calls go to the real functions """
+    def __init__(self, module, number, reg, log, regen_id=50, run_id=60):
+        self.module, self.name, self.reg, self.log = module, number, reg, log
+        self.__name__ = module.__name__
+        self.regen_id, self.run_id = regen_id, run_id
+
+    def is_enabled(self, options):
+        return self.module.is_enabled(options)
+
+    def regenerate_previous_results(self, previous, record, options):
+        self.log.extend([1, self.name, self.reg.ident(previous)])
+        results = self.module.regenerate_previous_results(previous, record, options)
+        if results is not None:
+            self.reg.add(results, self.regen_id)
+        return results
+
+    def run_on_record(self, record, results, options):
+        self.log.extend([2, self.name, -1 if results is None else self.reg.ident(results)])
+        out = self.module.run_on_record(record, results, options)
+        if out is not results:
+            self.reg.add(out, self.run_id)
+        return out
+
+
+def classify(fn):
+    """ what a real function does on this input, as a behaviour of the model: (kind, id, flag) """
+    try:
+        res = fn()
+    except Exception as exc:  # pylint: disable=broad-except
+        return (3, 0, err_code(exc)), None
+    if res is None:
+        return (0, 0, 0), None
+    return (1, 50, int(bool(res))), res
+
+
+def real_tta_cases(chk, rng, count):
+    """ main.run_module over the real TTA module: saved under threshold a, reused under threshold b,
+        module enabled or not (--minimal), saved schema below / equal / above, codons or none """
+    import copy
+    from antismash import main as amain
+    from antismash.config import build_config, destroy_config, update_config, get_config
+    from antismash.modules import tta
+    from antismash.modules.tta.tta import TTAResults
+    from antismash.common.secmet.test.helpers import DummyCDS, DummyRecord
+    global _TTA_READY
+    record = DummyRecord(seq="ATGC" * 500, features=[DummyCDS(100, 400, locus_tag="cdsA")], record_id="rec")
+    gc = record.get_gc_content()
+    cur = TTAResults.schema_version
+    out = []
+    table = []
+    for saved_thr in (0.3, gc, 0.9):
+        for now_thr in (0.3, gc, 0.9):
+            for codons in (0, 2):
+                for present in ("saved", "absent", "empty"):
+                    for schema in (cur, cur - 1, cur + 1):
+                        for enabled in (0, 1):
+                            table.append((saved_thr, now_thr, codons, present, schema, enabled))
+    rng.shuffle(table)
+    # every (present, schema, enabled) combination is kept; the threshold grid is sampled
+    seen = set()
+    chosen = []
+    for row in table:
+        key = row[2:]
+        if key not in seen or len(chosen) < count:
+            seen.add(key)
+            chosen.append(row)
+    try:
+        for saved_thr, now_thr, codons, present, schema, enabled in chosen:
+            destroy_config()
+            build_config(["--tta-threshold", str(now_thr)] + ([] if enabled else ["--minimal"]), isolated=True, modules=[tta])
+            options = get_config()
+            found = TTAResults("rec", gc, saved_thr)
+            if gc >= saved_thr:
+                for k in range(codons):
+                    found.new_feature_from_basics(112 + 3 * k, 1)
+            saved = through_orjson(found.to_json())
+            saved["schema_version"] = schema
+            reg, log = Registry(), []
+            proxy = Proxy(tta, 100, reg, log)
+            update_config({"all_enabled_modules": [proxy] if enabled else []})
+            assert tta.is_enabled(options) == bool(enabled)
+            entries = []
+            module_results = {}
+            regen = (0, 0, 0)
+            if present != "absent":
+                raw = reg.add(saved if present == "saved" else {}, 40)
+                module_results[tta.__name__] = raw
+                entries.append((100, 0, 40, int(bool(raw))))
+                regen, _ = classify(lambda: tta.regenerate_previous_results(copy.deepcopy(raw), record, options))
+            fresh = tta.detect(record, options)
+            beh = (100,) + regen + (enabled, enabled, 1, 60, int(bool(fresh)))
+            describe = {"module": "tta", "saved": saved if present == "saved" else present, "gc": gc,
+                        "threshold_now": now_thr, "enabled": enabled}
+
+            def work():
+                timings = {}
+                amain.run_module(record, proxy, options, module_results, timings)
+                return finish_main_case(chk, module_results, reg, log, timings, describe)
+            impl = guarded(work)
+            # the clause itself: saved under another schema version -> never reused
+            if present == "saved" and schema != cur and isinstance(module_results.get(tta.__name__), TTAResults) \
+                    and reg.ident(module_results[tta.__name__]) == 50:
+                chk.violation("counterexample", "TTA results saved under another schema version are reused by main.run_module",
+                              {"input": describe, "theorem_or_correspondence": "C11_guards_tta_schema"})
+            which = "below" if schema < cur else ("above" if schema > cur else "equal")
+            chk.count(f"schema_matrix:main.run_module(tta):{which}")
+            out.append((0, entries, [beh], impl, "real_tta", describe))
+    finally:
+        destroy_config()
+        _TTA_READY = False
+    return out
+
+
+def real_hmm_cases(chk, rng):
+    """ main.run_module over the real hmm_detection module (regenerate path; the rule set is a small one
+        with dynamic profiles): as saved, empty, schema below / above (outer and inner), other record,
+        changed rule set; in options.all_enabled_modules or not """
+    import copy
+    import detect_util
+    from antismash import main as amain
+    from antismash.detection import hmm_detection
+    from antismash.common.hmm_rule_parser.cluster_prediction import RuleDetectionResults
+    genes = [("g0", [(100, 1000, 1)]), ("g1", [(1500, 2400, -1)]), ("g2", [(9000, 9900, 1)])]
+    rules = "RULE rulep CATEGORY c CUTOFF 5 NEIGHBOURHOOD 2 CONDITIONS p\nRULE ruleq CATEGORY c CUTOFF 5 NEIGHBOURHOOD 0 CONDITIONS q and p"
+    hits = {"g0": {"p"}, "g1": {"p", "q"}, "g2": set()}
+    ruleset = detect_util.make_ruleset(rules, ["p", "q"], hits)
+    other = detect_util.make_ruleset(rules.replace("ruleq", "ruler"), ["p", "q"], hits)
+
+    def fresh(rid="rec"):
+        record = detect_util.make_record(30000, False, genes)
+        record.id = rid
+        return record
+    options = types.SimpleNamespace(hmmdetection_strictness="relaxed", taxon="bacteria",
+                                    hmmdetection_fungal_cutoff_multiplier=1.0, hmmdetection_fungal_neighbourhood_multiplier=1.5,
+                                    hmmdetection_limit_to_rules=[], hmmdetection_limit_to_categories=[])
+    out = []
+    old = hmm_detection.get_ruleset
+    hmm_detection.get_ruleset = lambda _options: ruleset
+    try:
+        saved = through_orjson(hmm_detection.run_on_record(fresh(), None, options).to_json())
+        outer, inner = hmm_detection.HMMDetectionResults.schema_version, RuleDetectionResults.schema_version
+        variants = [("as_saved", saved, "rec", ruleset), ("empty", {}, "rec", ruleset), ("absent", None, "rec", ruleset),
+                    ("record_id", saved, "other", ruleset), ("rule_set", saved, "rec", other)]
+        for label, delta in (("outer_below", -1), ("outer_above", 1)):
+            changed = copy.deepcopy(saved)
+            changed["schema_version"] = outer + delta
+            variants.append((label, changed, "rec", ruleset))
+        for label, delta in (("inner_below", -1), ("inner_above", 1)):
+            changed = copy.deepcopy(saved)
+            changed["rule_results"]["schema_version"] = inner + delta
+            variants.append((label, changed, "rec", ruleset))
+        for label, j, rid, rset in variants:
+            for in_all in (0, 1):
+                hmm_detection.get_ruleset = lambda _options, rset=rset: rset
+                reg, log = Registry(), []
+                proxy = Proxy(hmm_detection, 101, reg, log)
+                opts = types.SimpleNamespace(all_enabled_modules=[proxy] if in_all else [], **vars(options))
+                entries, module_results, regen = [], {}, (0, 0, 0)
+                if j is not None:
+                    raw = reg.add(copy.deepcopy(j), 40)
+                    module_results[hmm_detection.__name__] = raw
+                    entries.append((101, 0, 40, int(bool(raw))))
+                    regen, _ = classify(lambda: hmm_detection.regenerate_previous_results(copy.deepcopy(j), fresh(rid), opts))
+                beh = (101,) + regen + (in_all, 1, 1, 60, 1)
+                record = fresh(rid)
+                describe = {"module": "hmm_detection", "variant": label, "in_all_enabled_modules": in_all}
+
+                def work():
+                    timings = {}
+                    amain.run_module(record, proxy, opts, module_results, timings)
+                    return finish_main_case(chk, module_results, reg, log, timings, describe)
+                impl = guarded(work)
+                kept = module_results.get(hmm_detection.__name__)
+                if ("below" in label or "above" in label) and kept is not None and impl[0] == 0 and reg.ident(kept) == 50:
+                    chk.violation("counterexample", f"HMM detection results saved under another schema version ({label}) are reused",
+                                  {"input": describe, "theorem_or_correspondence": "C11_guards_det_from_json_inv"})
+                if "below" in label or "above" in label:
+                    chk.count(f"schema_matrix:main.run_module(hmm_detection):{label}")
+                out.append((0, entries, [beh], impl, "real_hmm_detection", describe))
+    finally:
+        hmm_detection.get_ruleset = old
+    return out
+
+
+def witness_falsy_dropped():
+    """ FC11a on the real code: accepted TTA results without codons vanish when the module is not enabled """
+    from antismash import main as amain
+    from antismash.config import build_config, destroy_config, update_config, get_config
+    from antismash.modules import tta
+    from antismash.modules.tta.tta import TTAResults
+    from antismash.common.secmet.test.helpers import DummyCDS, DummyRecord
+    global _TTA_READY
+    record = DummyRecord(seq="ATGC" * 500, features=[DummyCDS(100, 400, locus_tag="cdsA")], record_id="rec")
+    try:
+        destroy_config()
+        build_config(["--tta-threshold", "0.3", "--minimal"], isolated=True, modules=[tta])
+        update_config({"all_enabled_modules": []})
+        saved = through_orjson(TTAResults("rec", record.get_gc_content(), 0.3).to_json())
+        accepted = tta.regenerate_previous_results(through_orjson(saved), record, get_config())
+        module_results = {tta.__name__: saved}
+        amain.run_module(record, tta, get_config(), module_results, {})
+        return accepted is not None and accepted.to_json() == saved and tta.__name__ not in module_results
+    except Exception:  # pylint: disable=broad-except
+        return False
+    finally:
+        destroy_config()
+        _TTA_READY = False
+
+
+def schema_matrix(chk, labels):
+    """ every from_json / regenerate with a schema check, deterministically, with the saved version
+        below, equal to and above the current one: reused exactly when equal """
+    import copy
+    rng = __import__("random").Random(5)
+    rows = []
+    # NRPS/PKS domains
+    record, cdss = make_nrps_record(3)
+    saved = None
+    while saved is None or not saved["cds_results"]:
+        record, cdss = make_nrps_record(3)
+        try:
+            saved = through_orjson(gen_nrps_results(rng, labels, record, cdss).to_json())
+        except Exception:  # pylint: disable=broad-except
+            saved = None
+    names = [c.get_name() for c in cdss]
+    rows.append(("NRPSPKSDomains", saved, ["schema_version"], lambda j, cur: impl_nrps([j, "rec", names, cur])))
+    tta_j = {"TTA codons": [{"start": 5, "strand": 1}], "schema_version": 2, "record_id": "rec", "gc_content": 0.5, "threshold": 0.3}
+    rows.append(("TTAResults", tta_j, ["schema_version"], lambda j, cur: impl_tta([j, 0.3, "rec", cur])))
+    hm_j = {"hits": [], "record id": "rec", "schema": 2, "max evalue": 0.01, "min score": 10.0,
+            "database": "/db/pfam/35.0/Pfam-A.hmm", "tool": "cluster_hmmer"}
+    rows.append(("HmmerResults.from_json", hm_j, ["schema"], lambda j, cur: impl_hmmer([j, "rec", cur, 0.01, 10.0, 0])))
+    rows.append(("cluster_hmmer.regenerate", hm_j, ["schema"], lambda j, cur: impl_hmmer([j, "rec", cur, 0.01, 10.0, 1])))
+    det_j = {"record_id": "rec", "schema_version": 2, "enabled_types": ["a", "b"],
+             "rule_results": {"schema_version": 4, "tool": "rule-based-clusters", "cds_by_protocluster": [],
+                              "outside_protoclusters": [], "multipliers": {"cutoff": 1.0, "neighbourhood": 1.0}},
+             "strictness": "relaxed"}
+    rows.append(("HMMDetectionResults(outer)", det_j, ["schema_version"],
+                 lambda j, cur: impl_det([j, "rec", ["a", "b"], False, 1.0, 1.0, cur, 4])))
+    rows.append(("HMMDetectionResults(inner)", det_j, ["rule_results", "schema_version"],
+                 lambda j, cur: impl_det([j, "rec", ["a", "b"], False, 1.0, 1.0, 2, cur])))
+    side_j = {"record_id": "rec", "schema_version": 1, "protoclusters": [], "subregions": [
+        {"circular_origin": None, "start": 5, "end": 50, "label": "lab", "details": {}, "tool": {
+            "name": "tool", "version": "1.0", "description": "", "configuration": {}}}]}
+    rows.append(("SideloadedResults", side_j, ["schema_version"], lambda j, cur: impl_side([j, "rec", None, cur])))
+    import c11_rule
+    rule_args, what = c11_rule.gen_rule(rng)
+    while what != "as_saved":
+        rule_args, what = c11_rule.gen_rule(rng)
+    rule_args = through_orjson(rule_args)
+    rows.append(("RuleDetectionResults", rule_args[0], ["schema_version"],
+                 lambda j, cur: c11_rule.impl_rule([j, rule_args[1], cur])))
+    for name, base, path, call in rows:
+        holder = base
+        for key in path[:-1]:
+            holder = holder[key]
+        cur = holder[path[-1]]
+        for which, saved_v, cur_v in (("equal", cur, cur), ("below", cur - 1, cur), ("above", cur + 1, cur),
+                                      ("current_raised", cur, cur + 1), ("current_lowered", cur, cur - 1)):
+            j = copy.deepcopy(base)
+            holder = j
+            for key in path[:-1]:
+                holder = holder[key]
+            holder[path[-1]] = saved_v
+            out = call(j, cur_v)
+            chk.count(f"schema_matrix:{name}:{which}")
+            reused = out[:2] == [0, 1]
+            if reused != (which == "equal"):
+                text = "are not reused" if which == "equal" else "are reused"
+                chk.violation("counterexample", f"{name}: results saved under schema version {saved_v} {text} while the "
+                              f"current version is {cur_v}",
+                              {"input": {"saved": j, "current_schema_version": cur_v}, "implementation": out[:12],
+                               "theorem_or_correspondence": "C11_guards_*_reuse_inv (schema version)"})
+
+
+def main_level(chk, rng, quick, add_case):
+    """ generates and runs the fn 9 family; returns [(index in cases, describe)] for the spec pass """
+    todo = list(main_table(rng))
+    for _ in range(1500 if quick else 30000):
+        todo.append(gen_main_sequence(rng))
+    for mode, entries, behs, what in todo:
+        impl = impl_main(chk, mode, entries, behs,
+                         stages=sorted([rng.randint(0, len(behs)), rng.randint(0, len(behs))]) if mode else None)
+        add_case(mode, entries, behs, impl, what, None)
+    for mode, entries, behs, impl, what, describe in real_tta_cases(chk, rng, 60 if quick else 400):
+        add_case(mode, entries, behs, impl, what, describe)
+    for mode, entries, behs, impl, what, describe in real_hmm_cases(chk, rng):
+        add_case(mode, entries, behs, impl, what, describe)
+
+
 # ---------------------------------------------------------------- the run
 
 RULE = ("fn1 HMMResult JSON trees (depth <= 3; nested hits inside / touching / outside the parent; floats with 1..17 "
@@ -1034,6 +1652,8 @@ def run(chk):
             bad = j.get("record id") != args[1] or j.get("schema") != args[2]
         elif fn == 6:
             bad = j.get("record_id") != args[1] or j.get("schema_version") != args[3]
+        elif fn == 7:
+            bad = j.get("schema_version", 1) != args[2]
         else:
             return
         if bad:
@@ -1174,10 +1794,61 @@ def run(chk):
                                "theorem_or_correspondence": "C11_codec_RuleDetectionResults"})
         add(7, args, out, what, bool(args[0].get("cds_by_protocluster")))
 
+    # fn 9: the bookkeeping of main.run_module / analyse_record / run_detection (fake and real modules)
+    main_idx = []
+
+    def add_main(mode, entries, behs, out, what, describe):
+        flat = flat_main(mode, entries, behs)
+        main_idx.append((len(cases), describe or {"mode": ["analyse_record", "run_detection"][mode],
+                                                   "module_results (name, kind 0 raw 1 results 2 other 3 None, id, truthy)": entries,
+                                                   "modules (name, regenerate kind/id/flag, in all_enabled_modules, is_enabled, "
+                                                   "run_on_record kind/id/flag)": behs}))
+        cases.append(flat)
+        impl_outs.append(out)
+        meta.append((9, what))
+        chk.count(f"main.run_module:{what}")
+        if out[0] == 1:
+            chk.count("main.run_module:error_" + common.ERR_NAME.get(out[1], str(out[1])))
+        else:
+            chk.count("main.run_module:" + ("final map written by dump_records" if out[1] else "dump_records raises TypeError"))
+        visited = {b[0] for b in behs}
+        chk.note_case(flat, any(e[1] == 0 and e[0] in visited for e in entries),
+                      {"function": "main.run_module", "class": what, "arguments": main_idx[-1][1], "implementation": out[:40]})
+    main_level(chk, rng, quick, add_main)
+    schema_matrix(chk, labels)
+
     # spec_fn_offset: on a disagreement the "saved form" specification (fn + 10) is evaluated on the
     # implementation's output: a saved-form input that is not regenerated identically is a counterexample
     model_outs = common.correspondence(chk, cases, impl_outs, spec_fn_offset=10,
-                                       describe=lambda flat: {"function": FN_NAME.get(flat[1]), "payload": flat[2:]})
+                                       describe=lambda flat: unflat_main(flat) if flat[1] == 9 else
+                                       {"function": FN_NAME.get(flat[1]), "payload": flat[2:]})
+    # the specification of the main level (fn 19) on EVERY fn 9 case, on the implementation's outcome
+    spec_cases = [[PROP, 19] + cases[i][2:] + impl_outs[i] for i, _ in main_idx]
+    known = {f["class"]: f for f in common.load_known_findings("C11") if f.get("status") == "known"}
+    known_cases = 0
+    reported = False
+    for (i, describe), verdict in zip(main_idx, common.run_driver(spec_cases)):
+        if len(verdict) != 3:
+            chk.violation("broken-correspondence", "main level specification: case does not decode",
+                          {"theorem_or_correspondence": "generator discipline", "flat": cases[i]})
+            break
+        chk.count("main.run_module:spec_applicable" if verdict[1] else "main.run_module:spec_not_applicable")
+        if verdict[0] == 1:
+            continue
+        if verdict[2] == 1 and impl_outs[i] == model_outs[i] and MAIN_KNOWN_CLASS in known:
+            known_cases += 1
+            continue
+        if not reported:
+            reported = True
+            chk.violation("counterexample", "main.run_module: after the run the module's entry is not (exactly) the regenerated / "
+                          "new results or nothing - saved results are carried along, lost, or the run dies",
+                          {"input": describe, "flat": cases[i], "implementation": impl_outs[i], "model": model_outs[i],
+                           "spec_verdict_on_implementation_output": verdict,
+                           "theorem_or_correspondence": "C11_main_no_raw_sequence / C11_main_declined_discarded / "
+                                                        "C11_main_accepted_kept_partial"})
+    chk.extra["main_level_known_finding_cases"] = known_cases
+    if known_cases and witness_falsy_dropped():
+        chk.known(f"{known[MAIN_KNOWN_CLASS]['id']} class={MAIN_KNOWN_CLASS}: {known[MAIN_KNOWN_CLASS]['what_fails']}")
     unmodelled = sum(1 for m in model_outs if m[:2] == [1, 98] or m == [-999])
     chk.extra["outside_modelled_domain"] = unmodelled
     if unmodelled:
